@@ -608,3 +608,23 @@ _hdr("C10", """   END TO END (ComposeEf.v, ComposeEfFloat.v): C10_ef_contract_to
      width wl, with NO floating-point hypothesis (double: n + eps < 2^31, by reduction to the one-level search -- the two saturation
      rules agree below the cap; float: n + eps <= 2^21 - 1, by a direct Flocq analysis of the three-rounding float product).
      C10_*_tie / C10_far_*: search window, cap type and saturation limit regenerated from the source equal the model's.""")
+
+# ---- Bucketing / C wrapper without float_ok_valid (ComposeBucket32.v, ComposeCapi32.v)
+_add("C09", [("C09_bucketing_search_contract_std", "@check", "bucketing_search_contract_std"), ("C09_bucketing_contract_total_std", "@check", "bucketing_contract_total_std")],
+     imports=("Fp", "MappedQueries", "FloatOkCap", "ComposeIdx", "ComposeBuild", "ComposeFloat32", "ComposeBucket", "ComposeBucket32"))
+_add("C18", [("C18_search_contract_std", "@check", "C18_search_contract_std"), ("C18_create_search_std", "@check", "C18_create_search_std")],
+     imports=("Fp", "IdxChain", "Reject", "FloatOkCap", "ComposeIdx", "ComposeBuild", "ComposeFloat32", "ComposeCapi", "ComposeCapi32"))
+_hdr("C09", """   CLOSED without floating-point hypothesis (ComposeBucket32.v): C09_bucketing_contract_total_std / C09_bucketing_search_contract_std
+     (float: n + eps <= 2^22 - 1; double: n <= 2^30); the earlier forms assume float_ok_valid, which holds for double only.""")
+_hdr("C18", """   CLOSED without floating-point hypothesis (ComposeCapi32.v): C18_create_search_std / C18_search_contract_std for every run-time
+     eps >= 1 (float: n + eps, n + 5 <= 2^22 - 1); the wrapper's float configuration is exactly one where float_ok_valid is false
+     (cw_not_float_ok_valid) and the contract is nevertheless derived.""")
+
+# ---- the structural half of the C08 certificate holds for every built index (CmpStruct*.v)
+_add("C08", [("C08_struct_of_build", "@check", "cmp_struct_of_build"), ("C08_struct_of_build_std", "@check", "cmp_struct_of_build_std"),
+             ("C08_merge_slopes_ok", "@check", "merge_slopes_ok")],
+     imports=("Fp", "FloatOkLemmas", "CmpCertDefs", "CmpStructDefs", "CmpStructSeg", "CmpStructFp", "CmpStructBuild"))
+_hdr("C08", """   C08_struct_of_build: the STRUCTURAL half of the certificate (cmp_struct_b) is proved for every index compressed_build returns
+     (sizes, root and level intercepts within the no-overflow bound, every table slope finite and non-negative -- Flocq facts about the
+     x87 slope merging, C08_merge_slopes_ok); what remains checked per index at run time is the contract at the representatives and
+     the equal-trace condition (cmp_pass_b).""")
